@@ -427,7 +427,7 @@ pub fn all_tags() -> Vec<&'static str> {
 }
 
 fn split_line(l: &str) -> Vec<String> {
-    l.split(' ').filter(|t| !t.is_empty()).map(|t| t.to_string()).collect()
+    l.split([' ', '\t']).filter(|t| !t.is_empty()).map(|t| t.to_string()).collect()
 }
 
 fn ids_of(text: &str) -> Vec<String> {
@@ -752,7 +752,7 @@ pub fn line_shape(text: &str, idx: usize) -> (String, String) {
             let k = if t[2] == "bitvec" {
                 match t.get(3).and_then(|w| w.parse::<u64>().ok()) {
                     Some(0) => "bv0".to_string(),
-                    Some(w) if w >= (1 << 31) => "bvhuge".to_string(),
+                    Some(w) if w >= (1 << 24) => "bvhuge".to_string(),
                     Some(_) => "bv".to_string(),
                     None => "?".to_string(),
                 }
